@@ -145,6 +145,8 @@ def run_harness(h, prop, tier, seed=1, replay_dir=None):
             h.init_free = [s for mem, arr in tr.mem_arrays.items() for s in arr if s in tr.regs and (want == "*" or mem.name_override == want)]
             if not h.init_free:
                 raise Unsupported("no writable memory named %s" % want)
+        if getattr(h, "init_free_extra", None):
+            h.init_free = list(h.init_free) + [s for s in h.init_free_extra if s not in h.init_free]
         missing = [s for s in monitor_sigs if s not in tr.allsigs]
         if missing:
             raise Unsupported("monitor signals not in design: %r" % [s.backtrace[-1][0] for s in missing])
